@@ -39,6 +39,20 @@ def storage_histories(mode, tier, seed):
             hs.append(gen.gen_history(seed * 500009 + i, "crash-nc/%d" % i, "nocompact", n_ops=6, maxtx=4))
         for i in range(n):
             hs.append(gen.gen_history(seed * 600011 + i, "crash-cp/%d" % i, "compact", n_ops=7, maxtx=4))
+        # fixed shapes: names (labels, relationship types) interned by several transactions, then a compaction whose checkpoint
+        # covers them, then more work - recovery after the compaction still needs the names of the older transactions
+        N = lambda ext, l: ["CreateNode", str(ext), l]
+        hs.append({"id": "crash-fixed/names-before-compaction", "flavour": "compact", "ops": [
+            {"op": "tx", "ops": [N(101, "A")]}, {"op": "tx", "ops": [N(102, "B"), ["CreateEdge", 0, "R", 1]]},
+            {"op": "compact"}, {"op": "tx", "ops": [N(103, "C"), ["CreateEdge", 2, "S", 0]]}]})
+        hs.append({"id": "crash-fixed/two-compactions", "flavour": "compact", "ops": [
+            {"op": "tx", "ops": [N(101, "A")]}, {"op": "tx", "ops": [N(102, "B"), ["CreateEdge", 0, "R", 1], ["SetNP", 0, "p", "i:1"]]},
+            {"op": "compact"}, {"op": "tx", "ops": [N(103, "C"), ["CreateEdge", 2, "S", 0]]}, {"op": "compact"},
+            {"op": "tx", "ops": [["SetNP", 2, "q", "s:x"], ["CreateEdge", 1, "R", 2]]}]})
+        hs.append({"id": "crash-fixed/compaction-then-close", "flavour": "compact", "ops": [
+            {"op": "tx", "ops": [N(101, "A"), N(102, "B"), ["CreateEdge", 0, "R", 1]]}, {"op": "tx", "ops": [N(103, "A"), ["CreateEdge", 2, "S", 1]]},
+            {"op": "compact"}, {"op": "reopen", "how": "close"}, {"op": "tx", "ops": [N(104, "D"), ["CreateEdge", 3, "R", 0]]},
+            {"op": "reopen", "how": "drop"}, {"op": "tx", "ops": [["SetNP", 3, "p", "i:2"]]}]})
     elif mode == "tails":
         n = 3 if tier == "quick" else 40
         for i in range(n):
